@@ -1,1 +1,352 @@
-From Dino Require Import Base.Ops Model.Invariants Thm.Invariants.
+(** Property C11 - structural invariants survive any number of steps.
+    Statements only; proofs are in Thm/Invariants.v.  Every theorem is for an
+    arbitrary field [F] (hence the reals), an arbitrary vector space [V] with
+    operators [Fx] (explicit terms), [G] (implicit terms), [Ginv] (implicit
+    inverse), an arbitrary step term (all integrators of time_integration.py are
+    such terms, see [C11_terms_are_the_integrators]), an arbitrary filter stack
+    and EVERY step count [k]. *)
+From Dino Require Import Base.Ops Base.Sums Base.Ord Base.Inst Model.Filters Model.Sigma
+     Gen.DerivExprs Gen.Tableaux Model.Deriv Model.Invariants Thm.Invariants.
+From Dino Require Model.Integrators.
+From Coq Require Import Reals Qcanon.
+Local Open Scope F_scope.
+Notation iter := Dino.Model.Invariants.iter.
+
+Section C11.
+  Context {F : Type} {o : Ops F} {Fc : FieldC o}.
+  Add Field FFp : (field_c : FieldTh o).
+  Context {V : Type} {vo : VSp F V}.
+  Variables (Fx G : V -> V) (Ginv : F -> V -> V).
+
+  (** ** linear subspaces *)
+  Section Subspace.
+    Variable S : V -> Prop.
+    Hypothesis S_zero : S vz.
+    Hypothesis S_add : forall x y, S x -> S y -> S (va x y).
+    Hypothesis S_scale : forall c x, S x -> S (vs c x).
+    Hypothesis F_into : forall x, S x -> S (Fx x).
+    Hypothesis G_pres : forall x, S x -> S (G x).
+    Hypothesis Ginv_pres : forall eta x, S x -> S (Ginv eta x).
+
+    Theorem C11_term_preserves_subspace (t : stepterm F) (env : nat -> V) :
+      (forall i, S (env i)) -> S (eval Fx G Ginv t env).
+    Proof. exact (term_preserves_subspace Fx G Ginv S S_zero S_add S_scale F_into G_pres Ginv_pres t env). Qed.
+
+    Theorem C11_trajectory_in_subspace (t : stepterm F) (filters : list (V -> V -> V)) :
+      (forall f, In f filters -> forall u un, S u -> S un -> S (f u un)) ->
+      forall k u, S u -> S (iter k (with_filters (step_of Fx G Ginv t) filters) u).
+    Proof. exact (trajectory_in_subspace Fx G Ginv S S_zero S_add S_scale F_into G_pres Ginv_pres t filters). Qed.
+
+    Theorem C11_leapfrog_trajectory_in_subspace (t : stepterm F) (filters : list (V * V -> V * V -> V * V)) :
+      (forall f, In f filters -> forall u un, S2 S u -> S2 S un -> S2 S (f u un)) ->
+      forall k u, S2 S u -> S2 S (iter k (with_filters (lf_step_of Fx G Ginv t) filters) u).
+    Proof. exact (lf_trajectory_in_subspace Fx G Ginv S S_zero S_add S_scale F_into G_pres Ginv_pres t filters). Qed.
+
+    (** a linear component that sees F = 0, G = 0, G_inv = id on S never changes *)
+    Theorem C11_term_fixes_invariant_component (P : V -> F) (t : stepterm F) (c : F)
+            (filters : list (V -> V -> V)) :
+      P vz = 0 -> (forall x y, P (va x y) = P x + P y) -> (forall a x, P (vs a x) = a * P x) ->
+      (forall x, S x -> P (Fx x) = 0) -> (forall x, S x -> P (G x) = 0) ->
+      (forall eta x, S x -> P (Ginv eta x) = P x) ->
+      consistent t c ->
+      (forall f, In f filters -> forall u un, S u -> S un -> S (f u un) /\ P (f u un) = P un) ->
+      forall k u, S u -> P (iter k (with_filters (step_of Fx G Ginv t) filters) u) = P u.
+    Proof.
+      intros P0 Pa Ps PF PG PI Hc Hf k u Hu.
+      rewrite (component_after_k_steps Fx G Ginv S S_zero S_add S_scale F_into G_pres Ginv_pres
+                 P 0 P0 Pa Ps PF PG PI t c filters Hc Hf k u Hu).
+      ring.
+    Qed.
+  End Subspace.
+
+  (** ** the support pattern: triangular mask, clipped top wavenumber, padding *)
+  Section Pattern.
+    Variables (fast : bool) (M L R C : nat).
+    Hypothesis HLC : (L <= C)%nat.
+
+    (** explicit_terms = clip_wavenumbers(anything respecting the mask on inputs in the pattern) *)
+    Theorem C11_explicit_into_Supp (pre : stack -> stack) :
+      (forall x, Supp fast M L R C x -> forall k i l, (i < R)%nat -> (l < C)%nat ->
+                 mask fast M L i l = false -> pre x k i l = 0) ->
+      forall x, Supp fast M L R C x -> Supp fast M L R C (explicit_model L C pre x).
+    Proof. exact (explicit_into_Supp_rel fast M L R C HLC pre). Qed.
+
+    (** the top wavenumber and the padded columns: for ANY input and ANY pre-clip value *)
+    Theorem C11_explicit_top_zero (pre : stack -> stack) x k i l :
+      (L - 1 <= l)%nat -> explicit_model L C pre x k i l = 0.
+    Proof. exact (explicit_top_zero L C HLC pre x k i l). Qed.
+
+    (** implicit terms, implicit inverse (matrices per (m,l)) and filters (scalings per l) *)
+    Theorem C11_diagonal_preserves_Supp N A s x :
+      Supp fast M L R C x -> Supp fast M L R C (diagop N A x) /\ Supp fast M L R C (lfilter s x).
+    Proof.
+      intros Hx. split; [exact (diagop_preserves_Supp fast M L R C N A x Hx)|exact (lfilter_preserves_Supp fast M L R C s x Hx)].
+    Qed.
+
+    Theorem C11_modal_trajectory_in_Supp (pre : stack -> stack) N AG (AI : F -> nat -> nat -> nat -> nat -> F)
+            (t : stepterm F) (scalings : list (nat -> nat -> F)) :
+      (forall x, Supp fast M L R C x -> forall k i l, (i < R)%nat -> (l < C)%nat ->
+                 mask fast M L i l = false -> pre x k i l = 0) ->
+      forall k u, Supp fast M L R C u ->
+        Supp fast M L R C
+             (iter k (with_filters
+                        (step_of (vo := StackSp) (explicit_model L C pre) (diagop N AG) (fun eta => diagop N (AI eta)) t)
+                        (map (fun s => rk_filter (lfilter s)) scalings)) u).
+    Proof. exact (modal_trajectory_in_Supp fast M L R C HLC pre N AG AI t scalings). Qed.
+  End Pattern.
+
+  (** ** global means: the (0,0) coefficients *)
+  Section Means.
+    Variables (fast : bool) (L R C : nat) (r : F) (a b : @arr2 F).
+    Hypothesis Hr : r <> 0.
+    Hypothesis HL : (2 <= L)%nat.
+    Hypothesis HLC : (L <= C)%nat.
+    Hypothesis HR : (0 < R)%nat.
+
+    (** Stokes / Gauss in spectral form: for ANY arguments and ANY weight tables *)
+    Theorem C11_mean_tendencies_vanish g uv ke oro pe :
+      pe_vort_tend fast L R C r a b uv 0%nat 0%nat = 0 /\
+      pe_div_tend fast L R C r a b g uv ke oro 0%nat 0%nat = 0 /\
+      sw_vort_tend fast L R C r a b uv 0%nat 0%nat = 0 /\
+      sw_div_tend fast L R C r a b uv pe 0%nat 0%nat = 0 /\
+      sw_pot_tend fast L R C r a b uv 0%nat 0%nat = 0.
+    Proof.
+      repeat split.
+      - eapply pe_vort_tend_00; eassumption.
+      - eapply pe_div_tend_00; eassumption.
+      - eapply sw_vort_tend_00; eassumption.
+      - eapply sw_div_tend_00; eassumption.
+      - eapply sw_pot_tend_00; eassumption.
+    Qed.
+
+    Theorem C11_sw_implicit_at_mean eta phi d p :
+      sw_impl_div (lap_eig L r 0) p = 0 /\
+      sw_inv_div eta phi (lap_eig L r 0) d p = d /\
+      sw_inv_pot eta phi (lap_eig L r 0) d p = p - eta * phi * d /\
+      sw_impl_pot phi d = - phi * d.
+    Proof. eapply (sw_implicit_00 L R C r); eassumption. Qed.
+  End Means.
+
+  (** any inverse of (1 - eta G) passes every component that G annihilates
+      (first block row [I 0 0] of the implicit matrix at l = 0) *)
+  Theorem C11_inverse_passes_component (P : V -> F) eta y :
+    (forall x y, P (va x y) = P x + P y) -> (forall c x, P (vs c x) = c * P x) -> (forall x, P (G x) = 0) ->
+    va (Ginv eta y) (vs (- eta) (G (Ginv eta y))) = y -> P (Ginv eta y) = P y.
+  Proof. intros Pa Ps PG. exact (inverse_passes_component G Ginv P Pa Ps PG eta y). Qed.
+
+  (** shallow water: (0,0) potential tendency -phiref * div00, so the mean thickness is
+      conserved along every trajectory that starts with zero mean divergence *)
+  Theorem C11_sw_mean_thickness_conserved (D P : V -> F) (phiref : F) (t : stepterm F) (c : F)
+          (filters : list (V -> V -> V)) :
+    D vz = 0 -> (forall x y, D (va x y) = D x + D y) -> (forall a x, D (vs a x) = a * D x) ->
+    P vz = 0 -> (forall x y, P (va x y) = P x + P y) -> (forall a x, P (vs a x) = a * P x) ->
+    (forall x, D (Fx x) = 0) -> (forall x, D (G x) = 0) -> (forall eta x, D (Ginv eta x) = D x) ->
+    (forall x, P (Fx x) = 0) -> (forall x, P (G x) = - phiref * D x) ->
+    (forall eta x, P (Ginv eta x) = P x - eta * phiref * D x) ->
+    consistent t c ->
+    (forall f, In f filters -> forall u un, D (f u un) = D un /\ P (f u un) = P un) ->
+    forall k u, D u = 0 ->
+      P (iter k (with_filters (step_of Fx G Ginv t) filters) u) = P u /\
+      D (iter k (with_filters (step_of Fx G Ginv t) filters) u) = 0.
+  Proof.
+    intros. eapply (sw_mean_thickness_conserved Fx G Ginv D P phiref); eauto.
+  Qed.
+
+  (** ** scalar images of all integrators (arbitrary coefficient lists / tableaux) *)
+  Theorem C11_integrators_consistent (dt : F) :
+    consistent (euler_term dt) dt /\
+    ((1 + 1 : F) <> 0 -> consistent (cn_rk2_term dt) dt) /\
+    (forall al be ga, consistent (ls_step_term dt al be ga) (dt * ls_consistency al be ga)) /\
+    (forall a_ex a_im b_ex b_im t, imex_term dt a_ex a_im b_ex b_im = Some t ->
+                                   consistent t (dt * imex_consistency a_ex a_im b_ex)) /\
+    (forall alpha ph pe, aeval ph (leapfrog_term dt alpha) pe = pe 0%nat + itwo * dt * ph).
+  Proof.
+    split; [|split; [|split; [|split]]].
+    - exact (euler_consistent dt).
+    - exact (cn_rk2_consistent dt).
+    - exact (ls_consistent dt).
+    - exact (imex_consistent dt).
+    - intros alpha ph pe. exact (leapfrog_scalar dt alpha ph pe).
+  Qed.
+
+  (** ** sim_time: explicit tendency tdot (1.0 in the code), implicit tendency 0, the
+      inverse and the filters pass it through: t0 + k * (c * tdot) after k steps *)
+  Theorem C11_sim_time_advances (tdot : F) (t : stepterm F) (c : F) (fs : list (V -> V)) k (u : V * F) :
+    consistent t c ->
+    snd (iter k (with_filters (step_of (vo := TimedSp vo) (timed_F tdot Fx) (timed_G G) (timed_Ginv Ginv) t)
+                              (map (fun f => rk_filter (timed_filter f)) fs)) u)
+    = snd u + lit k * (c * tdot).
+  Proof. exact (sim_time_advances Fx G Ginv tdot t c fs k u). Qed.
+
+  (** filtering._preserves_shape: a scaling with at least one axis never touches a scalar leaf *)
+  Theorem C11_filter_leaves_scalar_leaf (sc : Filters.arr) (t : F) :
+    fst sc <> [] -> rescale sc (scalar_arr t) = scalar_arr t.
+  Proof. exact (filter_leaves_scalar sc t). Qed.
+
+  (** ** uniform tracer *)
+  (** vertical advection of a level-constant field is exactly 0 (all K, all level sets, all velocities) *)
+  Theorem C11_uniform_tracer_vertical K (b w : nat -> F) (c wt wb : F) n :
+    centered_vertical_advection K b w (fun _ => c) wt wb 0 0 n = 0.
+  Proof. exact (cva_constant K b w c wt wb n). Qed.
+
+  (** horizontal part under the named hypothesis H_uv_roundtrip (last premise):
+      to_modal(c*div + vertical) - H(c u, c v) = 0 *)
+  Theorem C11_uniform_tracer_horizontal {N : Type} (scaleN : F -> N -> N) (addN : N -> N -> N) (zeroN : N)
+          (to_modal : N -> F) (Hop : N -> N -> F) (c : F) (divn un vn vert : N) :
+    (forall k x, to_modal (scaleN k x) = k * to_modal x) ->
+    (forall x y, to_modal (addN x y) = to_modal x + to_modal y) ->
+    (forall k x y, Hop (scaleN k x) (scaleN k y) = k * Hop x y) ->
+    to_modal vert = 0 ->
+    Hop un vn = to_modal divn ->
+    to_modal (addN (scaleN c divn) vert) + - Hop (scaleN c un) (scaleN c vn) = 0.
+  Proof. exact (uniform_tracer_horizontal scaleN addN zeroN to_modal Hop c divn un vn vert). Qed.
+
+  (** hence: if the tracer tendency vanishes on the subspace U of states with a uniform
+      tracer (the two facts above), U is invariant and every tracer coefficient P is
+      constant along every trajectory *)
+  Theorem C11_uniform_tracer_stays_uniform (U : V -> Prop) (P : V -> F) (t : stepterm F) (c : F)
+          (filters : list (V -> V -> V)) :
+    U vz -> (forall x y, U x -> U y -> U (va x y)) -> (forall a x, U x -> U (vs a x)) ->
+    (forall x, U x -> U (Fx x)) -> (forall x, U x -> U (G x)) -> (forall eta x, U x -> U (Ginv eta x)) ->
+    P vz = 0 -> (forall x y, P (va x y) = P x + P y) -> (forall a x, P (vs a x) = a * P x) ->
+    (forall x, U x -> P (Fx x) = 0) -> (forall x, U x -> P (G x) = 0) ->
+    (forall eta x, U x -> P (Ginv eta x) = P x) ->
+    consistent t c ->
+    (forall f, In f filters -> forall u un, U u -> U un -> U (f u un) /\ P (f u un) = P un) ->
+    forall k u, U u ->
+      U (iter k (with_filters (step_of Fx G Ginv t) filters) u) /\
+      P (iter k (with_filters (step_of Fx G Ginv t) filters) u) = P u.
+  Proof.
+    intros U0 Ua Us UF UG UI P0 Pa Ps PF PG PI Hc Hf k u Hu. split.
+    - apply (trajectory_in_subspace Fx G Ginv U U0 Ua Us UF UG UI); [|exact Hu].
+      intros f Hin v vn Hv Hvn. exact (proj1 (Hf f Hin v vn Hv Hvn)).
+    - exact (C11_term_fixes_invariant_component U U0 Ua Us UF UG UI P t c filters P0 Pa Ps PF PG PI Hc Hf k u Hu).
+  Qed.
+
+  (** ** the step terms are the step functions of the C06 model of time_integration.py *)
+  Theorem C11_terms_are_the_integrators (dt : F) :
+    let Gi := fun x eta => Ginv eta x in
+    let vo' := toVOps (vo := vo) in
+    (forall u, step_of Fx G Ginv (euler_term dt) u = Integrators.euler_step (vo := vo') Fx Gi dt u) /\
+    (forall u, step_of Fx G Ginv (cn_rk2_term dt) u = Integrators.cn_rk2_step (vo := vo') Fx G Gi dt u) /\
+    (forall al be ga u, step_of Fx G Ginv (ls_step_term dt al be ga) u
+                        = Integrators.ls_step (vo := vo') Fx G Gi dt al be ga u) /\
+    (forall a_ex a_im b_ex b_im u,
+        option_map (fun t => step_of Fx G Ginv t u) (imex_term dt a_ex a_im b_ex b_im)
+        = Integrators.imex_step (vo := vo') Fx G Gi dt a_ex a_im b_ex b_im u) /\
+    (forall alpha pc, lf_step_of Fx G Ginv (leapfrog_term dt alpha) pc
+                      = Integrators.leapfrog_step (vo := vo') Fx G Gi dt alpha pc).
+  Proof.
+    cbv zeta. split; [|split; [|split; [|split]]].
+    - exact (bridge_euler Fx G Ginv dt).
+    - exact (bridge_cn_rk2 Fx G Ginv dt).
+    - intros al be ga u. exact (bridge_ls Fx G Ginv dt al be ga u).
+    - intros a_ex a_im b_ex b_im u. exact (bridge_imex Fx G Ginv dt a_ex a_im b_ex b_im u).
+    - intros alpha pc. exact (bridge_leapfrog Fx G Ginv dt alpha pc).
+  Qed.
+End C11.
+
+(** ** the coefficient tables of the source (Gen/Tableaux.v, regenerated on every run) *)
+Theorem C11_concrete_consistency_sums :
+  ls_consistency (qcl rk3_alphas) (qcl rk3_betas) (qcl rk3_gammas) = 1 /\
+  fle (fabs (ls_consistency (qcl rk4_alphas) (qcl rk4_betas) (qcl rk4_gammas) - 1)) (Q2Qc (1 # 1000000000000)) /\
+  imex_consistency (qcll sil3_a_ex) (qcll sil3_a_im) (qcl sil3_b_ex) = 1 /\
+  (forall dt : Qc, exists t, imex_term dt (qcll sil3_a_ex) (qcll sil3_a_im) (qcl sil3_b_ex) (qcl sil3_b_im) = Some t).
+Proof.
+  split; [|split; [|split]].
+  - exact rk3_consistency.
+  - exact rk4_consistency.
+  - exact sil3_consistency.
+  - exact sil3_term_defined.
+Qed.
+
+(** sim_time with the generated tables: exactly t0 + k*dt for RK3 and SIL3, and
+    t0 + k*dt*c with |c - 1| <= 1e-12 for the decimal RK4 coefficients *)
+Theorem C11_sim_time_advances_rk4 {V : Type} {vo : VSp Qc V} (Fx G : V -> V) (Ginv : Qc -> V -> V)
+        (dt : Qc) (fs : list (V -> V)) k (u : V * Qc) :
+  let run t := snd (iter k (with_filters (step_of (vo := TimedSp vo) (timed_F 1 Fx) (timed_G G) (timed_Ginv Ginv) t)
+                                         (map (fun f => rk_filter (timed_filter f)) fs)) u) in
+  run (ls_step_term dt (qcl rk3_alphas) (qcl rk3_betas) (qcl rk3_gammas)) = snd u + lit k * dt /\
+  (forall t, imex_term dt (qcll sil3_a_ex) (qcll sil3_a_im) (qcl sil3_b_ex) (qcl sil3_b_im) = Some t ->
+             run t = snd u + lit k * dt) /\
+  exists c, fle (fabs (c - 1)) (Q2Qc (1 # 1000000000000)) /\
+            run (ls_step_term dt (qcl rk4_alphas) (qcl rk4_betas) (qcl rk4_gammas)) = snd u + lit k * (dt * c).
+Proof.
+  cbv zeta. repeat split.
+  - rewrite (sim_time_advances Fx G Ginv 1 _ _ fs k u (ls_consistent dt _ _ _)).
+    rewrite rk3_consistency. f_equal. f_equal. change (dt * 1 * 1 = dt)%Qc. ring.
+  - intros t Ht. rewrite (sim_time_advances Fx G Ginv 1 _ _ fs k u (imex_consistent dt _ _ _ _ t Ht)).
+    rewrite sil3_consistency. f_equal. f_equal. change (dt * 1 * 1 = dt)%Qc. ring.
+  - exists (ls_consistency (qcl rk4_alphas) (qcl rk4_betas) (qcl rk4_gammas)). split; [exact rk4_consistency|].
+    rewrite (sim_time_advances Fx G Ginv 1 _ _ fs k u (ls_consistent dt _ _ _)).
+    f_equal. f_equal. set (c := ls_consistency _ _ _). change (dt * c * 1 = dt * c)%Qc. ring.
+Qed.
+
+(** over the reals (Euler and CN-RK2; any consistent term) *)
+Theorem C11_sim_time_advances_R {V : Type} {vo : VSp R V} (Fx G : V -> V) (Ginv : R -> V -> V)
+        (dt : R) (fs : list (V -> V)) k (u : V * R) :
+  snd (iter k (with_filters (step_of (vo := TimedSp vo) (timed_F 1%R Fx) (timed_G G) (timed_Ginv Ginv) (cn_rk2_term dt))
+                            (map (fun f => rk_filter (timed_filter f)) fs)) u)
+  = (snd u + @lit R ROps k * (dt * 1))%R.
+Proof.
+  assert (H2 : (@fadd R ROps 1 1 : R) <> 0).
+  { cbn. intro H. apply (Rlt_irrefl 0). rewrite <- H at 2. apply Rplus_lt_0_compat; exact Rlt_0_1. }
+  exact (sim_time_advances (F := R) Fx G Ginv 1%R (cn_rk2_term dt) dt fs k u (cn_rk2_consistent dt H2)).
+Qed.
+
+(** Non-vacuity: a concrete non-linear timed system over Qc (F(x) = x*x + 1, G(x) = -x,
+    G_inv(eta, x) = x/(1+eta)); three RK3 steps with a filter advance the time by
+    exactly 3/10; and a concrete 3 x 3 modal array on which the pattern hypotheses hold
+    while the clipped explicit tendency is not identically zero. *)
+Example C11_hyps_satisfiable :
+  let dt := Q2Qc (1 # 10) in
+  let t := ls_step_term dt (qcl rk3_alphas) (qcl rk3_betas) (qcl rk3_gammas) in
+  let Fx := fun x : Qc => x * x + 1 in
+  let G := fun x : Qc => - x in
+  let Ginv := fun eta x : Qc => x / (1 + eta) in
+  let step := with_filters (step_of (vo := TimedSp FSp) (timed_F 1 Fx) (timed_G G) (timed_Ginv Ginv) t)
+                           [rk_filter (timed_filter (fun x => Q2Qc (1 # 2) * x))] in
+  consistent t dt /\
+  snd (iter 3 step (Q2Qc 2, Q2Qc 0)) = Q2Qc (3 # 10) /\
+  fst (iter 3 step (Q2Qc 2, Q2Qc 0)) <> 0 /\
+  let pre := fun (x : stack) k i l => if mask false 2 3 i l then x k i l * x k i l + 1 else 0 in
+  let x0 : stack := fun k i l => if must_vanish false 2 3 i l then 0 else Q2Qc (1 # 2) in
+  Supp false 2 3 3 3 x0 /\
+  (forall x k i l, mask false 2 3 i l = false -> pre x k i l = 0) /\
+  explicit_model 3 3 pre x0 0%nat 0%nat 0%nat <> 0 /\
+  Supp false 2 3 3 3 (explicit_model 3 3 pre x0).
+Proof.
+  cbv zeta. split; [|split; [|split; [|split; [|split; [|split]]]]].
+  - intros ph pe. rewrite (ls_consistent (Q2Qc (1 # 10)) _ _ _ ph pe), rk3_consistency.
+    f_equal. change (Q2Qc (1 # 10) * 1 * ph = Q2Qc (1 # 10) * ph)%Qc. ring.
+  - apply Qc_is_canon. vm_compute. reflexivity.
+  - intro H. apply (f_equal (fun q : Qc => Qeq_bool q 0)) in H. vm_compute in H. discriminate H.
+  - intros k i l _ _ Hm. rewrite Hm. reflexivity.
+  - intros x k i l Hm. rewrite Hm. reflexivity.
+  - intro H. apply (f_equal (fun q : Qc => Qeq_bool q 0)) in H. vm_compute in H. discriminate H.
+  - apply (explicit_into_Supp false 2 3 3 3 (le_n 3)). intros x k i l _ _ Hm. rewrite Hm. reflexivity.
+Qed.
+
+Print Assumptions C11_term_preserves_subspace.
+Print Assumptions C11_trajectory_in_subspace.
+Print Assumptions C11_leapfrog_trajectory_in_subspace.
+Print Assumptions C11_explicit_into_Supp.
+Print Assumptions C11_explicit_top_zero.
+Print Assumptions C11_diagonal_preserves_Supp.
+Print Assumptions C11_modal_trajectory_in_Supp.
+Print Assumptions C11_term_fixes_invariant_component.
+Print Assumptions C11_mean_tendencies_vanish.
+Print Assumptions C11_inverse_passes_component.
+Print Assumptions C11_sw_implicit_at_mean.
+Print Assumptions C11_sw_mean_thickness_conserved.
+Print Assumptions C11_integrators_consistent.
+Print Assumptions C11_concrete_consistency_sums.
+Print Assumptions C11_sim_time_advances.
+Print Assumptions C11_sim_time_advances_rk4.
+Print Assumptions C11_filter_leaves_scalar_leaf.
+Print Assumptions C11_uniform_tracer_vertical.
+Print Assumptions C11_uniform_tracer_horizontal.
+Print Assumptions C11_uniform_tracer_stays_uniform.
+Print Assumptions C11_terms_are_the_integrators.
+Print Assumptions C11_sim_time_advances_R.
+Print Assumptions C11_hyps_satisfiable.
